@@ -271,7 +271,7 @@ def r7(fx):
                  got=ast.unparse(got_copy['matrix']), want='code.matrix')
     ms = got_copy.get('self._matrix_size')
     need(ms is not None, 'QRCode.__init__ does not assign self._matrix_size')
-    yield ob('QRCode._matrix_size is read from the matrix', nf.norm(ms) in ('(len(matrix[0]), len(matrix))',), init,
+    yield ob('QRCode._matrix_size is read from the matrix', nf.same(ms, '(len(matrix[0]), len(matrix))'), init,
              got=ast.unparse(ms), want='(len(matrix[0]), len(matrix))')
     md = got_copy.get('self._mode')
     need(md is not None, 'QRCode.__init__ does not assign self._mode')
@@ -315,7 +315,7 @@ def r7(fx):
     # designator
     f = fx.fn('__init__', 'QRCode.designator')
     r = single([s for s in ast.walk(f) if isinstance(s, ast.Return)], 'return in designator')
-    yield ob('QRCode.designator', nf.norm(r.value) == "'-'.join((version, self.error) if self.error else (version,))"
+    yield ob('QRCode.designator', nf.same(r.value, "'-'.join((version, self.error) if self.error else (version,))")
              and any(ast.unparse(s) == 'version = str(self.version)' for s in f.body), f, got=ast.unparse(r.value),
              want="'-'.join((version, self.error) if self.error else (version,))")
     # default border and symbol size over all sizes
@@ -336,7 +336,7 @@ def r7(fx):
     yield ob('get_symbol_size = (size + 2*border) * scale', not bad, fx.fn('utils', 'get_symbol_size'), got=bad[:3], want=[])
     f = fx.fn('__init__', 'QRCode.symbol_size')
     r = single([s for s in ast.walk(f) if isinstance(s, ast.Return)], 'return in symbol_size')
-    yield ob('QRCode.symbol_size', nf.norm(r.value) == 'utils.get_symbol_size(self._matrix_size,scale=scale,border=border)', f,
+    yield ob('QRCode.symbol_size', nf.same(r.value, 'utils.get_symbol_size(self._matrix_size,scale=scale,border=border)'), f,
              got=ast.unparse(r.value), want='utils.get_symbol_size(self._matrix_size, scale=scale, border=border)')
 
 
@@ -355,7 +355,7 @@ def r8(fx):
 def r9(fx):
     from . import p03
     for o in p03.r5(fx):
-        if o.key.startswith('remainder bits') or o.key.startswith('order of res.extend'):
+        if o.key.startswith('remainder bits') or o.key.startswith('order of the parts'):
             yield o
 
 
